@@ -154,13 +154,14 @@ def header_problems(case, root):
     problems = []
     if list(root["contig_id"][:]) != [c for c, _ in case["contigs"]]:
         problems.append(("HEADER", "contig_id", str(list(root["contig_id"][:]))))
-    if all(l is not None for _, l in case["contigs"]):
+    # htslib / cyvcf2 report a declared length of 0 like an absent one: only positive lengths are determined
+    if all(l for _, l in case["contigs"]):
         if "contig_length" not in root or root["contig_length"][:].tolist() != [l for _, l in case["contigs"]]:
             problems.append(("HEADER", "contig_length", ""))
     elif "contig_length" in root:
         # partly declared lengths: if the array is there it has one entry per contig and the declared ones are right
         got = root["contig_length"][:].tolist()
-        if len(got) != len(case["contigs"]) or any(l is not None and g != l for g, (_, l) in zip(got, case["contigs"])):
+        if len(got) != len(case["contigs"]) or any(l and g != l for g, (_, l) in zip(got, case["contigs"])):
             problems.append(("HEADER", "contig_length", str(got)))
     if list(root["filter_id"][:]) != canonical_filters(case):
         problems.append(("HEADER", "filter_id", str(list(root["filter_id"][:]))))
